@@ -305,6 +305,37 @@ func (e *Engine) registerStdlib() {
 		}
 		return res
 	})
+	r("strings.SplitN", func(c *CallCtx) []Outcome {
+		// Split, then the parts from the n-th on are joined again (they are the unsplit remainder)
+		n, ok := c.args[2].(*Term).ConstInt()
+		if !ok {
+			unm("strings.SplitN with a symbolic count")
+		}
+		if n == 0 {
+			return c.ret(SliceV{})
+		}
+		outs := c.e.intr["strings.Split"](&CallCtx{e: c.e, st: c.st, args: c.args[:2], pos: c.pos, fn: c.fn})
+		if n < 0 {
+			return outs
+		}
+		sep := c.args[1].(*Str)
+		for i := range outs {
+			if outs[i].st == nil || outs[i].val == nil {
+				continue
+			}
+			parts := c.e.sliceValues(outs[i].st, outs[i].val)
+			if int64(len(parts)) <= n {
+				continue
+			}
+			rest := parts[n-1].(*Str)
+			for _, p := range parts[n:] {
+				rest = sConcat(sConcat(rest, sep), p.(*Str))
+			}
+			vals := append(append([]Value(nil), parts[:n-1]...), rest)
+			outs[i].val = c.e.mkSlice(outs[i].st, vals)
+		}
+		return outs
+	})
 	r("strings.Join", func(c *CallCtx) []Outcome {
 		elems := c.e.sliceValues(c.st, c.args[0])
 		sep := c.args[1].(*Str)
